@@ -64,8 +64,8 @@ Proof. vm_compute. reflexivity. Qed.
 Example C19_static_tables_nonempty :
   (50 <= List.length foot_fields)%nat /\ (200 <= List.length foot_methods)%nat /\ List.length foot_accessors = 11%nat /\
   (25 <= List.length foot_pkgvars)%nat /\ List.length foot_shared_edges = 17%nat /\
-  method_writes "collection.(*list_).AppendValue"%string = Some ["collection.list_.values_"%string] /\
-  method_writes "agent.(*collator_).compareArrays"%string = Some ["agent.collator_.depth_"%string] /\
+  method_writes "collection.(*list_).AppendValue"%string = Some ["collection.list_.ArrayLike0"%string] /\
+  method_writes "agent.(*collator_).<private>"%string = Some ["agent.collator_.int0"%string] /\
   method_writes "agent.(*collator_).RankValues"%string = Some [].
 Proof. vm_compute. repeat split; try reflexivity; repeat constructor. Qed.
 
